@@ -61,10 +61,16 @@ ArcGap(shape) == IF shape = "circle" THEN 4 * ArcQ(shape) ELSE 7 * ArcQ(shape)
 \* control point collinear with, and outside, the end points (the curve runs past an end and comes back)
 QuadCollinearOvershoot(p) == /\ Cross(p[1], p[3], p[2]) = 0 /\ p[1] # p[2] /\ p[3] # p[2]
                              /\ (p[1] = p[3] \/ DotP(p[1], p[3], p[2]) < 0 \/ DotP(p[1], p[3], p[2]) > Len2(p[1], p[3]))
+\* the control polygon turns by more than 90 degrees between two of its (non-zero) legs, or a leg has length zero: the
+\* curve runs back along its own tangent direction, which the step-size formulas of the flattener do not account for
+Leg(p, i) == <<p[i + 1][1] - p[i][1], p[i + 1][2] - p[i][2]>>
+VDot(u, v) == u[1] * v[1] + u[2] * v[2]
+Fold(p) == \/ \E i \in 1..(Len(p) - 1) : Leg(p, i) = <<0, 0>>
+           \/ \E i, j \in 1..(Len(p) - 1) : i < j /\ VDot(Leg(p, i), Leg(p, j)) < 0
 CubeCollinear(p) == Cross(p[1], p[4], p[2]) = 0 /\ Cross(p[1], p[4], p[3]) = 0 /\ (p[1] = p[4] => Cross(p[1], p[2], p[3]) = 0)
-Features == CASE cv.type = "quad"  -> [overshoot |-> QuadCollinearOvershoot(cv.pts), startend |-> cv.pts[1] = cv.pts[3], collinear |-> Cross(cv.pts[1], cv.pts[3], cv.pts[2]) = 0, chordrx |-> FALSE]
-              [] cv.type = "cubic" -> [overshoot |-> FALSE, startend |-> cv.pts[1] = cv.pts[4], collinear |-> CubeCollinear(cv.pts), chordrx |-> FALSE]
-              [] cv.type = "arc"   -> [overshoot |-> FALSE, startend |-> FALSE, collinear |-> FALSE, chordrx |-> cv.shape = "chordrx"]
+Features == CASE cv.type = "quad"  -> [overshoot |-> QuadCollinearOvershoot(cv.pts), startend |-> cv.pts[1] = cv.pts[3], collinear |-> Cross(cv.pts[1], cv.pts[3], cv.pts[2]) = 0, chordrx |-> FALSE, fold |-> Fold(cv.pts)]
+              [] cv.type = "cubic" -> [overshoot |-> FALSE, startend |-> cv.pts[1] = cv.pts[4], collinear |-> CubeCollinear(cv.pts), chordrx |-> FALSE, fold |-> Fold(cv.pts)]
+              [] cv.type = "arc"   -> [overshoot |-> FALSE, startend |-> FALSE, collinear |-> FALSE, chordrx |-> cv.shape = "chordrx", fold |-> FALSE]
 
 \* ---- enumeration ----------------------------------------------------------------------------------------------------
 Pt == (0..N) \X (0..N)
@@ -72,8 +78,9 @@ Ctl(n) == IF Num = 0 THEN [1..n -> Pt] ELSE RandomSubset(Num, [1..n -> Pt])
 Arcs == {[type |-> "arc", shape |-> s, a |-> a, n |-> n, ccw |-> w] : s \in {"circle", "ellipse", "ellipse90"}, a \in 0..35, n \in 1..35, w \in BOOLEAN}
 \* chord = rx, horizontal, rotation 0 (60 degree arcs): end points are not integer circle points; both directions
 ChordRx == {[type |-> "arc", shape |-> "chordrx", a |-> 0, n |-> 1, ccw |-> w] : w \in BOOLEAN}
-Choice == CASE Fam = "quad"  -> {[type |-> "quad", pts |-> p] : p \in Ctl(3)}
-            [] Fam = "cubic" -> {[type |-> "cubic", pts |-> p] : p \in Ctl(4)}
+NotAPoint(p) == \E i \in 2..Len(p) : p[i] # p[1]            \* a curve whose control points all coincide is dropped by the builder
+Choice == CASE Fam = "quad"  -> {[type |-> "quad", pts |-> p] : p \in {x \in Ctl(3) : NotAPoint(x)}}
+            [] Fam = "cubic" -> {[type |-> "cubic", pts |-> p] : p \in {x \in Ctl(4) : NotAPoint(x)}}
             [] Fam = "arc"   -> (IF Num = 0 THEN Arcs ELSE RandomSubset(Num, Arcs)) \cup ChordRx
 Init == cv \in Choice /\ done = FALSE
 \* geometry of an arc for the harness (lattice units, centre at the origin; chordrx: a horizontal chord of length rx)
@@ -86,22 +93,43 @@ Scenario == IF cv.type = "arc" THEN [cv |-> cv, f |-> Features, g |-> ArcGeom(cv
 Emit == ~done /\ done' = TRUE /\ UNCHANGED cv /\ PrintT("@@" \o ToJson(Scenario))
 Spec == Init /\ [][Emit]_vars
 
+\* ---- model-level laws of the exact data (invariant of every generation run) -------------------------------------
+\* a parabola has constant second differences, a cubic constant third differences; way-points start and end on the end
+\* points; the 36 circle points lie on the circle in counter-clockwise order; the large flag is the one of the SVG rules
+CurveLaws ==
+    CASE cv.type = "quad" -> LET p == cv.pts w == QuadWP(p) d == D2(p[1], p[2], p[3]) IN
+            /\ w[1] = <<QB * p[1][1], QB * p[1][2]>> /\ w[33] = <<QB * p[3][1], QB * p[3][2]>>
+            /\ \A j \in 1..31 : \A c \in 1..2 : w[j][c] - 2 * w[j + 1][c] + w[j + 2][c] = 2 * d[c]
+      [] cv.type = "cubic" -> LET p == cv.pts IN
+            /\ CubeWP(p)[1] = <<QB * p[1][1], QB * p[1][2]>> /\ CubeWP(p)[17] = <<QB * p[4][1], QB * p[4][2]>>
+            /\ \A j \in 0..13 : \A c \in 1..2 :
+                  CubeAt(p, j + 3, c) - 3 * CubeAt(p, j + 2, c) + 3 * CubeAt(p, j + 1, c) - CubeAt(p, j, c) = 6 * (p[4][c] - 3 * p[3][c] + 3 * p[2][c] - p[1][c])
+      [] cv.type = "arc" ->
+            /\ \A i \in 0..35 : LET a == CirclePt(i) b == CirclePt((i + 1) % 36) IN
+                  a[1] * a[1] + a[2] * a[2] = R * R /\ a[1] * b[2] - a[2] * b[1] > 0
+            /\ cv.shape # "chordrx" => LET w == ArcWPu(cv) IN Len(w) = cv.n + 1 /\ (ArcLarge(cv) <=> cv.n > 18)
+
 \* ---- judging an output polyline (all coordinates in Q units) ----------------------------------------------------
-\* distance from s to the segment ab is at most r (accepting side widened by the integer square root)
-WithinSeg(a, b, s, r) ==
+\* distance from s to the segment ab is at most r ; sq = ceiling of the length of ab (the accepting side is widened)
+WithinSegS(a, b, s, r, sq) ==
     IF a = b THEN Len2(a, s) <= r * r
     ELSE LET t == DotP(a, b, s) l == Len2(a, b) IN
          IF t <= 0 THEN Len2(a, s) <= r * r
          ELSE IF t >= l THEN Len2(b, s) <= r * r
-         ELSE Abs(Cross(a, b, s)) <= r * ISqrtHi(l)
+         ELSE Abs(Cross(a, b, s)) <= r * sq
+WithinSeg(a, b, s, r) == WithinSegS(a, b, s, r, ISqrtHi(Len2(a, b)))
+\* sq is the sequence of the ceilings of the segment lengths of poly (a certificate that is checked, not trusted)
+SqrtsOK(poly, sq) == /\ Len(sq) = Len(poly) - 1
+                     /\ \A i \in 1..Len(sq) : LET l == Len2(poly[i], poly[i + 1]) IN sq[i] * sq[i] >= l /\ (sq[i] = 0 \/ (sq[i] - 1) * (sq[i] - 1) < l)
+Sqrts(poly) == [i \in 1..(Len(poly) - 1) |-> ISqrtHi(Len2(poly[i], poly[i + 1]))]
 \* pts[j] (j from jj) are, in order, within r of the polyline poly, walking its segments from index i on (monotone cover)
-RECURSIVE Cover(_, _, _, _, _)
-Cover(pts, jj, poly, i, r) ==
+RECURSIVE Cover(_, _, _, _, _, _)
+Cover(pts, jj, poly, i, r, sq) ==
     IF jj > Len(pts) THEN 0                                              \* 0 = all covered
-    ELSE IF Len(poly) = 1 THEN (IF Len2(poly[1], pts[jj]) <= r * r THEN Cover(pts, jj + 1, poly, i, r) ELSE jj)
+    ELSE IF Len(poly) = 1 THEN (IF Len2(poly[1], pts[jj]) <= r * r THEN Cover(pts, jj + 1, poly, i, r, sq) ELSE jj)
     ELSE IF i >= Len(poly) THEN jj                                        \* index of the first point that cannot be placed
-    ELSE IF WithinSeg(poly[i], poly[i + 1], pts[jj], r) THEN Cover(pts, jj + 1, poly, i, r)
-    ELSE Cover(pts, jj, poly, i + 1, r)
+    ELSE IF WithinSegS(poly[i], poly[i + 1], pts[jj], r, sq[i]) THEN Cover(pts, jj + 1, poly, i, r, sq)
+    ELSE Cover(pts, jj, poly, i + 1, r, sq)
 CeilDiv(a, b) == (a + b - 1) \div b
 RadW(q, tn, td) == CeilDiv(4 * q * tn, td) + 2
 RadV(q, tn, td, gap) == CeilDiv(3 * q * tn, 2 * td) + gap + 2
